@@ -56,6 +56,7 @@ def c13a_matches(ck, prog):
     cs = decision.conjuncts(e)
     text = decision.show(e)
     want = {"username": False, "password": False}
+    helpers = set()
     ok = len(cs) == 2
     bad = ""
     for c in cs:
@@ -63,12 +64,24 @@ def c13a_matches(ck, prog):
             ok = False
             bad = "non-leaf conjunct %s" % decision.show(c)
             continue
-        m = re.fullmatch(r"eq\((.*),(.*)\)", c[1])
-        if not m:
+        m = re.fullmatch(r"(\w+)\((.*),(.*)\)", c[1])
+        helper = None
+        if m and m.group(1) != "eq":
+            hs = [g for g in prog.fns.values() if g.name == m.group(1) and g.key.startswith(f.key + "::")]
+            helper = hs[0] if len(hs) == 1 else None
+            if helper is not None:
+                from .C12 import whole_slice_helper
+                okh, howh = whole_slice_helper(prog, helper)
+                if not okh:
+                    ok = False
+                    bad = "conjunct `%s`: %s" % (c[1][:50], howh)
+                    continue
+                helpers.add(helper.name)
+        if not m or (m.group(1) != "eq" and helper is None):
             ok = False
             bad = "conjunct `%s` is not a whole-value equality (PartialEq::eq)" % c[1]
             continue
-        a, b = m.group(1), m.group(2)
+        a, b = m.group(2), m.group(3)
         pair = None
         for fld, arg in (("username", "arg2"), ("password", "arg3")):
             if (re.fullmatch(r"(as_ref|deref|as_str)\(arg1\.%s\)" % fld, a) and b == arg) or (re.fullmatch(r"(as_ref|deref|as_str)\(arg1\.%s\)" % fld, b) and a == arg):
@@ -81,7 +94,7 @@ def c13a_matches(ck, prog):
     # the equalities must be str equalities (not prefix / case-insensitive tests): callee identity
     eqs = [c for c in f.calls() if c.name in ("eq", "ne")]
     for c in f.calls():
-        if c.name not in ("eq", "as_ref", "deref", "as_str"):
+        if c.name not in ("eq", "as_ref", "deref", "as_str", "as_bytes") and c.name not in helpers:
             ok = False
             bad = "unexpected call `%s` in matches()" % c.callee
     for c in eqs:
